@@ -41,10 +41,13 @@ def main():
         env = dict(os.environ, C18_ROOT=wt, EDB_ROOT=wt, C04_ROOT=wt, PYTHONPATH='')
         # the demonstrations locate the checkout as the parent of their own directory
         os.makedirs(f'{wt}/_seeded', exist_ok=True)
-        n = sid.split('-')[1]
+        n = sid.split('-', 1)[1]
         demo = f'{wt}/_seeded/demo_{n}.py'
         import shutil
         shutil.copy(os.path.join(d, 'demo.py'), demo)
+        for extra in os.listdir(d):          # helper modules a demonstration imports
+            if extra.endswith('.py') and extra != 'demo.py':
+                shutil.copy(os.path.join(d, extra), f'{wt}/_seeded/{extra}')
         rc0, out0 = sh(f'{PY} {demo} {wt}', cwd=wt, env=env, timeout=1200)
         rca, outa = sh(f'git apply {d}/patch.diff', cwd=wt)
         if rca != 0:
